@@ -92,6 +92,8 @@ def run(run, binfo):
                         c['model_rules'] = dict(rules, zreg='role:nobody')
                     # deny is False, or the not-authorized exception when the caller asked for one
                     c['do_raise'] = (len(cases) // 3) % 2 == 1
+                    # what the log level is must not matter to the decision
+                    c['debug'] = len(cases) % 7 == 3
                     cases.append(c)
     # a policy file that defines nothing, in every spelling: an empty rule set, hence deny (never an error)
     for txt in ('', '{}', '# only a comment\n', '---\n', 'null', '~\n', '--- {}\n', '\n\n', '# c\n---\n# d\n'):
@@ -101,6 +103,7 @@ def run(run, binfo):
                     c = base_case(rules={}, default=d, rule=('name', q), creds={'roles': ['x']}, do_raise=dr)
                     c['from_file'] = True
                     c['file_text'] = txt
+                    c['debug'] = len(cases) % 2 == 1
                     cases.append(c)
     run.count('cases', len(cases))
     bad_corr = []
@@ -130,7 +133,7 @@ def run(run, binfo):
                        'input': describe(c), 'model': m, 'observed': i, 'count': len(bad_corr)})
     run.rule = ('complete table: every rule set over %r with bodies %r (or absent) x %d default-rule configurations '
                 '(unset, defined/undefined name, check objects of several classes, dict, via policy_default_rule option; rules given by set_rules or loaded from a policy directory with no policy file) x queried names x '
-                'role subsets x do_raise, half of the Rules-carried sets written in place over earlier opposite definitions after an undefined name was enforced; model vs Enforcer.enforce and an independent reading of the statement; non-trivial = '
+                'role subsets x do_raise x log level (default / DEBUG), half of the Rules-carried sets written in place over earlier opposite definitions after an undefined name was enforced; model vs Enforcer.enforce and an independent reading of the statement; non-trivial = '
                 'distinct (rule set, default, queried name) with the name undefined' % (names, BODIES, len(defaults)))
     run.exhaustive = tier == 'thorough'
 
